@@ -402,9 +402,14 @@ func extractSize(m *model.Msg) (*sizeModel, error) {
 				sm.Problems = append(sm.Problems, "final return does not report Size: n")
 			}
 		case *ast.AssignStmt:
-			// top-level scratch assignment: l = len(x.F)
-			if _, err := w.exec([]ast.Stmt{t}); err != nil {
+			// top-level scratch assignment: l = len(x.F); or the unknown bytes counted without a guard
+			// (len of a nil slice is 0, so `n += len(x.unknownFields)` equals the guarded form)
+			pl, err := w.exec([]ast.Stmt{t})
+			if err != nil {
 				return nil, wrapPos(m, t.Pos(), err)
+			}
+			if pl.String() == "len(x.unknownFields)" {
+				sm.Blocks = append(sm.Blocks, &sizeBlock{Kind: "unknown", Str: "if(nonnil(x.unknownFields)){len(x.unknownFields)}", Pos: t.Pos()})
 			}
 		case *ast.IfStmt:
 			if t.Init != nil || t.Else != nil {
@@ -427,8 +432,9 @@ func extractSize(m *model.Msg) (*sizeModel, error) {
 				}
 			}
 			kind := "field"
-			if c == "nonnil(x.unknownFields)" {
-				kind = "unknown"
+			if c == "nonnil(x.unknownFields)" || c == "nonempty(x.unknownFields)" {
+				// both guards only skip adding 0
+				kind, c = "unknown", "nonnil(x.unknownFields)"
 			}
 			sm.Blocks = append(sm.Blocks, &sizeBlock{Kind: kind, Str: "if(" + c + "){" + p.String() + "}", Pos: t.Pos()})
 		case *ast.TypeSwitchStmt:
@@ -527,6 +533,36 @@ func (w *sizeWalker) mapBlock(list []ast.Stmt) (Poly, error, bool) {
 	}
 	if len(params) != 2 {
 		return nil, und("map size closure must take (key, value)"), true
+	}
+	// the sum does not depend on the visiting order: a single `for k, v := range C { entry(k, v) }` is enough
+	if rs, ok := list[1].(*ast.RangeStmt); ok {
+		coll, err := w.e.term(rs.X)
+		if err != nil {
+			return nil, err, true
+		}
+		if t := info.TypeOf(rs.X); t == nil {
+			return nil, und("range operand type"), true
+		} else if _, isMap := t.Underlying().(*types.Map); !isMap {
+			return nil, und("map size loop does not range over the map"), true
+		}
+		kv, _ := rs.Key.(*ast.Ident)
+		vv, _ := rs.Value.(*ast.Ident)
+		if kv == nil || vv == nil || len(rs.Body.List) != 1 {
+			return nil, und("map size loop form"), true
+		}
+		if !w.isEntryCall(rs.Body.List[0], fnObj, info.ObjectOf(kv), info.ObjectOf(vv)) {
+			return nil, fmt.Errorf("map size loop does not call the entry closure with (key, value)"), true
+		}
+		saved := w.e
+		w.e = w.e.child()
+		w.e.set(params[0], "key("+coll+")")
+		w.e.set(params[1], "val("+coll+")")
+		entry, err := w.exec(fl.Body.List)
+		w.e = saved
+		if err != nil {
+			return nil, err, true
+		}
+		return pAtom("sum(" + coll + "){" + entry.String() + "}"), nil, true
 	}
 	is, ok := list[1].(*ast.IfStmt)
 	if !ok || is.Else == nil {
